@@ -172,6 +172,15 @@ pub fn start_fsm_with_data_and_finish_mode(
         .spawn(move || {
             #[cfg(feature = "Debug")]
             debug!("SM Session {} starting...", session_id);
+            if !is_datamodel_supported(sm.datamodel.as_str()) {
+                // W3C: a document that requires a data model the processor does not support is rejected.
+                // (create_datamodel would panic, on this thread and with the factory registry locked.)
+                error!(
+                    "Unsupported Data Model '{}': session {} is not started",
+                    sm.datamodel, session_id
+                );
+                return;
+            }
             {
                 let mut datamodel = create_datamodel(sm.datamodel.as_str(), global_data, &options);
                 {
@@ -3678,6 +3687,14 @@ pub fn register_datamodel(name: &str, factory: Box<dyn DatamodelFactory>) {
         .lock()
         .unwrap()
         .insert(name.to_lowercase(), factory);
+}
+
+/// True if a datamodel of that (case-insensitive) name is registered, i.e. [create_datamodel] will succeed.
+pub fn is_datamodel_supported(name: &str) -> bool {
+    datamodel_factories
+        .lock()
+        .unwrap()
+        .contains_key(&name.to_lowercase())
 }
 
 pub fn create_datamodel(
